@@ -153,7 +153,7 @@ def sl_run(spec):
             warnings.simplefilter('ignore')
             try:
                 sl = SuperLearner(cands, ['c%d' % i for i in range(len(cands))], folds=spec['k'],
-                                  loss_function=spec.get('loss_spelling', spec['loss']), discrete=spec['discrete'])
+                                  loss_function=spec.get('loss_spelling', spec['loss']), discrete=spec['discrete'], bounds=spec.get('bounds', 1e-6))
                 TRUTH[0] = np.asarray(y, dtype=float)
                 del YBAD[:]
                 carrier = ['ndarray', 'series', 'series-permuted-index', 'list'][spec['dseed'] % 4]
@@ -233,7 +233,9 @@ def gen_sl_specs(ctx):
         specs.append({'n': n, 'k': k, 'loss': loss, 'discrete': rng.random() < 0.4, 'y': ykind, 'cands': cands,
                       'dseed': rng.randint(0, 2 ** 31 - 1),
                       # the argument is documented as "L2, NLogLik" and compared case-insensitively
-                      'loss_spelling': rng.choice(['L2', 'l2'] if loss == 'L2' else ['nloglik', 'NLogLik', 'NLOGLIK'])})
+                      'loss_spelling': rng.choice(['L2', 'l2'] if loss == 'L2' else ['nloglik', 'NLogLik', 'NLOGLIK']),
+                      # `bounds`: the truncation of the candidate probabilities on the log-likelihood path; 0.45 bites on nearly every row
+                      'bounds': rng.choice([1e-6, 0.05, 0.45]) if loss == 'nloglik' else 1e-6})
     for i in range(3 if ctx.quick else 12):      # degenerate target
         specs.append({'n': rng.randint(12, 20), 'k': rng.randint(2, 5), 'loss': 'L2', 'discrete': bool(i % 2), 'y': 'zero',
                       'cands': [(0.0, 0.1, False), (0.05, -0.1, False)][:1 + i % 2], 'dseed': rng.randint(0, 2 ** 31 - 1)})
@@ -256,6 +258,8 @@ def check_sl(ctx, specs, fails):
         ctx.count('sl:candidates=%d' % m)
         ctx.count('sl:loss=' + spec.get('loss_spelling', spec['loss']))
         ctx.count('sl:discrete=%s' % spec['discrete'])
+        if spec['loss'] == 'nloglik':
+            ctx.count('sl:nloglik bounds=%r discrete=%s' % (spec.get('bounds', 1e-6), spec['discrete']))
         ctx.count('sl:y=' + spec['y'])
         ctx.count('sl:n mod folds=%d' % (n % k))
         o = sl_run(spec)
@@ -283,7 +287,7 @@ def check_sl(ctx, specs, fails):
         if spec['loss'] == 'L2':
             pred_t = 'Qflat (map (sl_predict_l2 coefs) %s)' % ('[' + '; '.join(ql(r) for r in newp) + ']')
         else:
-            pred_t = 'map (fun r => Qflat (sl_nll_args %s coefs r)) %s' % (qlit(1e-6), '[' + '; '.join(ql(r) for r in newp) + ']')
+            pred_t = 'map (fun r => Qflat (sl_nll_args %s coefs r)) %s' % (qlit(spec.get('bounds', 1e-6)), '[' + '; '.join(ql(r) for r in newp) + ']')
         # cv_pred column per candidate, from the spy's own record of what it returned for held-out rows
         cvp = [[None] * n for _ in range(m)]
         for e in o['log'][:o.get('n_fit_log', len(o['log']))]:
